@@ -64,6 +64,9 @@ def evaluate(name):
                     shutil.copy(os.path.join(root, "rp", f), keep)
             elif code != 0:
                 row["errors"][prop] = out.strip().splitlines()[-3:]
+        print("done %s: %s alarms=%s errors=%s" % (name, row.get("tests", "?")[:30],
+                                                   sorted(row["alarms"]), sorted(row["errors"])),
+              flush=True)
         return row
     finally:
         shutil.rmtree(root, ignore_errors=True)
